@@ -17,6 +17,8 @@ type CoffCase struct {
 	File    *string           `json:"file"`    // [FILE] name, nil = no directive
 	Externs [][]string        `json:"externs"` // EXTERN statements (names unrelated to the program, and names that are also GLOBAL)
 	EPos    []int             `json:"epos"`    // where each EXTERN statement goes (as GPos; an EXTERN comes before a GLOBAL at the same place)
+	Sects   []string          `json:"sects"`   // [SECTION name] lines
+	SPos    []int             `json:"spos"`    // where each goes (as GPos; before EXTERN/GLOBAL at the same place)
 	Cell_   string            `json:"cell"`
 }
 
@@ -45,14 +47,24 @@ func (c *CoffCase) source(withFormat bool) string {
 			}
 		}
 	}
+	emitS := func(pos int) {
+		for i, t := range c.Sects {
+			if c.SPos[i] == pos {
+				b.WriteString("[SECTION " + t + "]\n")
+			}
+		}
+	}
+	emitS(-1)
 	emitE(-1)
 	emitG(-1)
 	for i, s := range c.P.Stmts {
+		emitS(i)
 		emitE(i)
 		emitG(i)
 		b.WriteString(s.Line())
 		b.WriteByte('\n')
 	}
+	emitS(len(c.P.Stmts))
 	emitE(len(c.P.Stmts))
 	emitG(len(c.P.Stmts))
 	return renameIdents(b.String(), c.Rename)
@@ -386,11 +398,28 @@ func genCoffCase(r *Rand, prop string, reserved []string, big bool) *CoffCase {
 		if fl > 4 {
 			fn = fn[:fl-4] + ".nas"
 		}
+		if fl > 6 && r.Chance(1, 3) {
+			// a path rather than a bare file name: directory separators, dots, dashes and blanks at seeded places
+			b := []byte(fn)
+			for j := r.Intn(3) + 1; j > 0; j-- {
+				b[r.Intn(fl-5)] = "//.- "[r.Intn(5)]
+			}
+			fn = string(b)
+		}
 		c.File = &fn
 	}
 	fl := -1
 	if c.File != nil {
 		fl = len(*c.File)
+	}
+	// section lines: the usual [SECTION .text] up front, and now and then a [SECTION .data] / [SECTION .bss] in front of the
+	// statements that follow (gosk keeps one image; whatever it does with the names, the object has to stay well-formed and
+	// carry the same bytes)
+	if r.Chance(1, 3) {
+		c.Sects, c.SPos = append(c.Sects, ".text"), append(c.SPos, -1)
+	}
+	if r.Chance(1, 4) {
+		c.Sects, c.SPos = append(c.Sects, Pick(r, []string{".data", ".data", ".bss"})), append(c.SPos, r.Intn(len(body)+1))
 	}
 	sort.Strings(exported)
 	c.Cell_ = fmt.Sprintf("labels=%d globals=%d stmts=%d file=%d big=%v", len(labs), len(names)/3, ng, fl/6, big)
